@@ -95,7 +95,7 @@ def gen_stream(chk, kname, want):
         off = (chk.seed + zlib.crc32(kname.encode()) % 7) % step
         small = small[off::step]
     out += [(c, 'small') for c in small]
-    n = chk.n(1000, 6000)
+    n = chk.n(1000, 24000)
     maxlen = chk.n(8, 25)
     for _ in range(n):
         out.append((al.gen_case(rng, maxlen=maxlen, exact=True, force_scale1=(want == 'opt')), 'random-exact'))
@@ -321,7 +321,7 @@ def dispatcher_checks(chk, want):
     from lingpy.align import pairwise as pw
     drv = common.Driver()
     rng = chk.rng
-    n = chk.n(400, 3000)
+    n = chk.n(400, 12000)
     bad = []
     fails = []
 
@@ -482,7 +482,7 @@ def class2tokens_checks(chk):
     drv = common.Driver()
     rng = chk.rng
     bad, fails = [], []
-    n = chk.n(1200, 20000)
+    n = chk.n(1200, 80000)
     lines, cases = [], []
     for _ in range(n):
         L = rng.choice([1, 2, 3, 4, 6, 9])
@@ -531,7 +531,7 @@ def pairwise_entry(chk):
     from lingpy.sequence.sound_classes import ipa2tokens
     rng = chk.rng
     fails = []
-    n = chk.n(200, 1500)
+    n = chk.n(200, 6000)
     for _ in range(n):
         wa, wb = rng.choice(WORDS), rng.choice(WORDS)
         if rng.random() < 0.4:
